@@ -513,7 +513,7 @@ let id_agg st env : item list * env =
 
 (* ---- tail recursion --------------------------------------------------------------------------------- *)
 let id_tail st env : item list * env =
-  let env_top = { env with vars = List.filter (fun v -> v.lvl = 0 && v.vb = BFunc) env.vars; lvl = 0;
+  let env_top = { env with vars = List.filter (fun (v : vinfo) -> v.lvl = 0 && v.vb = BFunc) env.vars; lvl = 0;
                             block = List.map (fun v -> v.vn) env.vars @ List.map (fun fd -> int_of_n (fd_name fd)) st.top;
                             forbid = Uniq.IS.empty } in
   let fd, v = gen_named_func ~toplevel:true ~kind:`Tail st env_top 2 in
